@@ -23,6 +23,27 @@ impl AbstractInstructionSet {
         data_section: &DataSection,
         level: OptLevel,
     ) -> AbstractInstructionSet {
+        // Verification hook H2: `SWAY_VERIF_ASM_OPT=none` disables the abstract-instruction
+        // optimizer; a comma-separated list applies exactly the named optimizations, once, in order.
+        #[cfg(fuellabs_sway_verif)]
+        if let Ok(selection) = std::env::var("SWAY_VERIF_ASM_OPT") {
+            for name in selection.split(',').map(str::trim) {
+                self = match name {
+                    "const-indexed-aggregates" => {
+                        self.const_indexing_aggregates_function(data_section)
+                    }
+                    "constant-propagate" => self.constant_propagate(log_nothing),
+                    "dce" => self.dce(),
+                    "simplify-cfg" => self.simplify_cfg(),
+                    "remove-sequential-jumps" => self.remove_sequential_jumps(),
+                    "remove-redundant-moves" => self.remove_redundant_moves(),
+                    "remove-redundant-ops" => self.remove_redundant_ops(log_nothing),
+                    _ => self,
+                };
+            }
+            return self;
+        }
+
         match level {
             // On debug builds do a single pass through the simple optimizations
             OptLevel::Opt0 => self
